@@ -20,7 +20,9 @@ def main(path, repo):
     u = Unit(rec["unit"], rec["declaration"], [h] if rec.get("harness") else [], {}, rec.get("pre", ""))
     extra_rt = tuple(rec.get("extra_rt", ()))
     if kind in ("rejected-valid-declaration", "api-shape"):
-        cr = Crate(os.path.join(work, "chk"), "vchk", [u], dep, lock, release_macro=relmacro, extra_rt=extra_rt)
+        if rec.get("no_std"):
+            u.harnesses = []
+        cr = Crate(os.path.join(work, "chk_nostd" if rec.get("no_std") else "chk"), "vchk", [u], dep, lock, release_macro=relmacro, extra_rt=extra_rt, nostd=bool(rec.get("no_std")))
         cr.write(only_if_changed=False)
         ok, diags, err, wall = E.cargo_check(cr, os.path.join(work, "target_chk"))
         for d in diags:
